@@ -45,6 +45,7 @@ pub fn run_op(lhs: &str) -> String {
             "hist" => ops3::op_hist(args),
             "serde" => ops3::op_serde(args),
             "fragdec" => ops4::op_fragdec(args),
+            "fragdecr" => ops4::op_fragdecr(args),
             "fragob" => ops4::op_fragob(args),
             "fragenc" => ops4::op_fragenc(args),
             "faults" => ops4::op_faults(args),
